@@ -473,6 +473,39 @@ func (w *World) run(op *Op) (interface{}, error) {
 			return nil, err
 		}
 		return d, nil
+	case "DecodeInto":
+		// serialise In[0] and decode the bytes into an EXISTING tensor (slot R): the receiver gets new
+		// contents, nobody else may change - not even the tensors whose storage the receiver used to share
+		a := w.in(op, 0)
+		dst := w.rslot(op)
+		var b []byte
+		var err error
+		switch op.S {
+		case "pb":
+			b, err = a.PBEncode()
+		case "fb":
+			b, err = a.FBEncode()
+		case "npy":
+			var buf bytes.Buffer
+			err = a.WriteNpy(&buf)
+			b = buf.Bytes()
+		default:
+			b, err = a.GobEncode()
+		}
+		if err != nil {
+			return nil, err
+		}
+		switch op.S {
+		case "pb":
+			err = dst.PBDecode(b)
+		case "fb":
+			err = dst.FBDecode(b)
+		case "npy":
+			err = dst.ReadNpy(bytes.NewReader(b))
+		default:
+			err = dst.GobDecode(b)
+		}
+		return nil, err
 	case "Format":
 		a := w.in(op, 0)
 		return fmt.Sprintf(op.S, a), nil
@@ -692,6 +725,13 @@ func (w *World) construct(op *Op) (interface{}, error) {
 	case "colraw":
 		opts = append(opts, tensor.WithShape(w.arg("shape", shape)...), tensor.WithBacking(mkBacking(dt, n, int(op.F))), tensor.AsFortran(nil))
 		return tensor.New(opts...), nil
+	case "rowspare":
+		// the caller's backing slice is the front part of a longer slice of the caller's: the tensor
+		// shares (documented) the first n elements, the tail stays the caller's
+		full := reflect.ValueOf(mkBacking(dt, n+5, int(op.F)))
+		w.backs = append(w.backs, backRec{full: full, n: n, tail: fmt.Sprint(full.Slice(n, n+5).Interface()), step: w.step})
+		opts = append(opts, tensor.WithShape(w.arg("shape", shape)...), tensor.WithBacking(full.Slice(0, n).Interface()))
+		return tensor.New(opts...), nil
 	default:
 		if mask != nil {
 			opts = append(opts, tensor.WithShape(w.arg("shape", shape)...), tensor.WithBacking(mkBacking(dt, n, int(op.F)), mask))
@@ -775,7 +815,7 @@ func (w *World) dests(op *Op) []int {
 		if op.Mode == "unsafe" {
 			d = append(d, op.In[0])
 		}
-	case "Copy", "CopyTo", "RepeatReuse", "SliceInto":
+	case "Copy", "CopyTo", "RepeatReuse", "SliceInto", "DecodeInto":
 		d = append(d, op.R)
 	case "MaskFromDense":
 		d = append(d, op.In[0])
